@@ -171,7 +171,9 @@ def run_property(prop: str, rules_fn: Callable[[Ctx], None], repo: str, tier: st
         counts: Dict[str, int] = {}
         for o in ctx.obs:
             counts[o.rule] = counts.get(o.rule, 0) + 1
-        has_violation = any(o.verdict == "violation" for o in ctx.obs)
+        # only a violation that is not a listed known finding stands on its own (a known finding must not hide an undecided rule)
+        _known = load_known_findings()
+        has_violation = any(o.verdict == "violation" and not any(finding_matches(k, prop, o) for k in _known) for o in ctx.obs)
         for rid, mn in ctx.minimums.items():
             # a definite violation stands on its own: the vacuity guard protects *passes*, not alarms
             if counts.get(rid, 0) < mn and not has_violation:
